@@ -152,6 +152,14 @@ public:
     }
   }
 
+  /// \brief Removes all entries from the cache (the eviction callback is not invoked).
+  void clear()
+  {
+    std::lock_guard<std::mutex> lock(_mutex);
+    _cache.clear();
+    iora::core::Logger::debug("ExpiringCache: Cleared all cache entries");
+  }
+
   /// \brief Get current cache size (number of entries)
   /// \return Current number of entries in cache
   std::size_t size() const
